@@ -161,6 +161,8 @@ def build_v2_config(spec: dict, states: list, n: int):
             continue
         obs.append(getattr(pb, k)(**kw))
     kwargs = dict(observables=obs, default_evaluation_times=spec["default_evaluation_times"], sampling_rate=spec["sampling_rate"])
+    if spec.get("with_modulation"):
+        kwargs["with_modulation"] = True
     if spec["noise"]:
         kwargs["noise_model"] = NoiseModel(**spec["noise"])
     if "initial_amplitudes" in spec:
@@ -241,7 +243,12 @@ def run_v2(prop: str, seed: int, run: int, profile: dict, doc=None) -> RunResult
     nontrivial = False
     if snap.channels and T >= 16 and not snap.parametrized:
         if cfg_spec is None:
-            cfg_spec = gen_v2_config(stream(seed, prop, run, "faults"), states, n, T, profile)
+            frng = stream(seed, prop, run, "faults")
+            cfg_spec = gen_v2_config(frng, states, n, T, profile)
+            if any(cs.obj.mod_bandwidth for cs in snap.channels.values()) and not snap.flags["slm_targets"] and frng.random() < 0.25:
+                # emulate the modulated output: the emulated duration then exceeds the
+                # programmed one, and relative times refer to the emulated duration
+                cfg_spec["with_modulation"] = True
         world = dict(world, v2_config=cfg_spec)
         cnt = [0]
 
@@ -311,7 +318,7 @@ def _one(ctx, spec, states, n, T, seed, run, profile) -> bool:
     leg_err = None
     legacy = None
     try:
-        legacy = QutipEmulator.from_sequence(seq, sampling_rate=spec["sampling_rate"], config=SimConfig.from_noise_model(nm))
+        legacy = QutipEmulator.from_sequence(seq, sampling_rate=spec["sampling_rate"], config=SimConfig.from_noise_model(nm), with_modulation=bool(spec.get("with_modulation")))
     except Exception as e:  # noqa: BLE001
         leg_err = e
     if v2_err is not None:
@@ -345,9 +352,12 @@ def _one(ctx, spec, states, n, T, seed, run, profile) -> bool:
         return False
     stats["v2_runs"] += 1
     # ------------------------------------------------------------ bookkeeping
-    grid_idx = np.linspace(0, T - 1, int(spec["sampling_rate"] * T), dtype=int)
     # the emulator's own time grid (relative)
     sim = backend._sim_obj
+    if spec.get("with_modulation"):
+        T = int(sim.total_duration_ns)  # the emulated (modulated) duration
+        stats["probe/with_modulation"] += 1
+    grid_idx = np.linspace(0, T - 1, int(spec["sampling_rate"] * T), dtype=int)
     grid = [float(t) / (sim.total_duration_ns * 1e-3) for t in sim.sampling_times]
     tol = 0.5 / T
     default = spec["default_evaluation_times"]
